@@ -148,3 +148,18 @@ contract(_MC, 'check_cfg_is_chomsky', {'G': 'CFG'}, returns='List[Text]',
          ensures=['(len(result) == 0) == all(%s for t in range(len(G.R)))' % (_ALT_CNF % (('G.R[t].alternative.symbols',) * 6))],
          loops={1: {'ghost': 'idx', 'invariant': ['all(implies(0 <= t and t < idx, %s) for t in ints())' % (_ALT_CNF % (('G.R[t].alternative.symbols',) * 6))]}},
          theories=[], props=['C12', 'C19'], note='no feedback exactly when every rule has the Chomsky shape')
+
+# ---------------------------------------------------------------------------------------------- the class invariant of CFG
+contract(MC, 'Alternative.terminals', {'self': 'Alternative'}, returns='Set[Atom]',
+         ensures=['all((x in result) == any(%s[k] == x and not vtag(x) for k in range(len(%s))) for x in atoms())' % (_SY, _SY)], theories=[], props=['C08'])
+contract(MC, 'Rule.terminals', {'self': 'Rule'}, returns='Set[Atom]',
+         ensures=['all((x in result) == any(%s[k] == x and not vtag(x) for k in range(len(%s))) for x in atoms())' % (_RS, _RS)], theories=[], props=['C08'])
+_RT = 'self.R[t].alternative.symbols'
+_CFG_BAD = ['any(0 <= t and t < len(self.R) and 0 <= k and k < len(%s) and vtag(%s[k]) and %s[k] not in self.V for t in ints() for k in ints())' % (_RT, _RT, _RT),
+            'any(0 <= t and t < len(self.R) and 0 <= k and k < len(%s) and not vtag(%s[k]) and %s[k] not in self.Sigma for t in ints() for k in ints())' % (_RT, _RT, _RT),
+            'any(0 <= t and t < len(self.R) and self.R[t].variable not in self.V for t in ints())']
+contract(MC, 'CFG.check_validity', {'self': 'CFG'}, returns='Bool', raises=_CFG_BAD, raise_witness={'raise#1': 0, 'raise#2': 1, 'raise#3': 2},
+         ensures=['result'],
+         loops={1: {'ghost': 'idx', 'invariant': ['V == self.V', 'Sigma == self.Sigma', 'R == self.R'] + ['not ' + b.replace('len(self.R)', 'idx') for b in _CFG_BAD]}},
+         theories=[], props=['C08'],
+         note='the class invariant of CFG: check_validity raises exactly when some rule uses a variable that is not in V, a terminal that is not in Sigma, or has a head that is not in V, and returns True otherwise (isinstance tests: assumption A-tags)')
